@@ -6,6 +6,16 @@ HERE = os.path.dirname(os.path.dirname(os.path.abspath(__file__)))
 
 # id -> (technique, level text, level note, design ref)
 CHECKS = {
+    "C01": (
+        "Hypothesis-generated crosses over tagged founder haplotypes; provenance-tracing oracle (membership, switch sites, sibling structure, counts/labels)",
+        "Generated-input search over all seven protocols and both meiosis kernels: parents whose every cell names its founder "
+        "haplotype (or arbitrary int8 codes), cross tables with forced selfs/repeats, scalar and per-cross counts incl. zeros, "
+        "selfing depth 0..3, crossover vectors with exact 0/0.5, numpy Generator / RandomState / scripted boundary draws, two "
+        "consecutive calls. Oracle reads provenance from the progeny: allowed parents per side, source changes only where "
+        "xoprob>0, one intermediate hybrid per mating, DH homozygosity, counts/order/names/family labels/counters, inputs and "
+        "marker metadata unchanged. Absence is not established; intermediate hybrids are not observable directly.",
+        "Counters < 10**7; at least one progeny in total; starting copy at the first marker unconstrained.",
+        "DESIGN.md §3 C01"),
     "C09": (
         "Hypothesis-generated genotype matrices vs exact integer/Fraction definitions (exact 0/1 boundary)",
         "Generated-input search: phased/unphased matrices (ploidy 1/2/4, 1..300 taxa with the sizes where "
